@@ -16,22 +16,31 @@ CONSTANTS MaxLen
 
 VARIABLES prog, out, js
 
-Keys == {"k1", "k2"}
+\* k1 is an application key (present in both stores at the start of the request); the other key of
+\* each store is the library's own "known" key there: the session's user id, the remember cookie
+SKeys == {"k1", "uid"}
+CKeys == {"k1", "rm"}
 
-Ops == [op : {"PutS", "DelS", "PutC", "DelC", "ReadS", "ReadC"}, k : Keys]
-       \cup { [op |-> o, k |-> "-"] : o \in {"DelAllS", "WriteHeader", "Write"} }
-       \* (the library exposes delete-all for the session store only)
+Ops == [op : {"PutS", "DelS", "ReadS"}, k : SKeys] \cup [op : {"PutC", "DelC", "ReadC"}, k : CKeys]
+       \cup { [op |-> o, k |-> "-"] : o \in {"DelAllS", "DelKnownS", "DelKnownC", "WriteHeader", "Write"} }
+       \* (the library exposes delete-all for the session store only; DelKnownSession / DelKnownCookie are
+       \*  the exported helpers that delete the library's own keys one by one)
 
-SessOps   == {"PutS", "DelS", "DelAllS"}
-CookieOps == {"PutC", "DelC"}
+SessOps   == {"PutS", "DelS", "DelAllS", "DelKnownS"}
+CookieOps == {"PutC", "DelC", "DelKnownC"}
 WriteOps  == {"WriteHeader", "Write"}
 
 \* request-scoped read state: k1 is present in both stores, k2 absent
 InitVal(store, k) == IF k = "k1" THEN store \o ":i1" ELSE "absent"
 
-Ev(o) == [kind |-> CASE o.op \in {"PutS", "PutC"} -> "put" [] o.op \in {"DelS", "DelC"} -> "del" [] OTHER -> "delall",
-          key |-> IF o.op = "DelAllS" THEN "wl" ELSE o.k,
-          val |-> IF o.op \in {"PutS", "PutC"} THEN "v-" \o o.k ELSE ""]
+Del(k) == [kind |-> "del", key |-> k, val |-> ""]
+\* the events one operation queues
+Evs(o) == CASE o.op \in {"PutS", "PutC"} -> <<[kind |-> "put", key |-> o.k, val |-> "v-" \o o.k]>>
+            [] o.op \in {"DelS", "DelC"} -> <<Del(o.k)>>
+            [] o.op = "DelAllS"   -> <<[kind |-> "delall", key |-> "wl", val |-> ""]>>
+            [] o.op = "DelKnownS" -> <<Del("uid"), Del("halfauth"), Del("last_action")>>
+            [] o.op = "DelKnownC" -> <<Del("rm")>>
+            [] OTHER -> <<>>
 
 RECURSIVE Run(_, _)
 \* s = [pendS, pendC, written, wire, reads]
@@ -39,8 +48,8 @@ Run(p, s) ==
   IF p = <<>> THEN s
   ELSE LET o == Head(p) IN
        Run(Tail(p),
-         CASE o.op \in SessOps   -> [s EXCEPT !.pendS = Append(@, Ev(o))]
-           [] o.op \in CookieOps -> [s EXCEPT !.pendC = Append(@, Ev(o))]
+         CASE o.op \in SessOps   -> [s EXCEPT !.pendS = @ \o Evs(o)]
+           [] o.op \in CookieOps -> [s EXCEPT !.pendC = @ \o Evs(o)]
            [] o.op = "ReadS"     -> [s EXCEPT !.reads = Append(@, InitVal("s", o.k))]
            [] o.op = "ReadC"     -> [s EXCEPT !.reads = Append(@, InitVal("c", o.k))]
            [] o.op \in WriteOps  ->
@@ -68,7 +77,8 @@ FirstWrite == IF \E i \in 1..Len(prog) : prog[i].op \in WriteOps
               THEN CHOOSE i \in 1..Len(prog) : prog[i].op \in WriteOps /\ \A j \in 1..(i - 1) : prog[j].op \notin WriteOps
               ELSE Len(prog) + 1
 Before(kindSet) == SelectSeq(SubSeq(prog, 1, FirstWrite - 1), LAMBDA o : o.op \in kindSet)
-EvSeq(ops) == [i \in 1..Len(ops) |-> Ev(ops[i])]
+RECURSIVE EvSeq(_)
+EvSeq(ops) == IF ops = <<>> THEN <<>> ELSE Evs(Head(ops)) \o EvSeq(Tail(ops))
 
 ExactlyOnce == Cardinality(Idx("S")) <= 1 /\ Cardinality(Idx("C")) <= 1
 \* delivered iff the handler wrote at all and made a change before that; in order; never mixed
